@@ -25,36 +25,48 @@ CONSTANTS Tier          \* "quick" | "thorough" | "pairs"
 Bases == JsonDeserialize("bases.json")
 Deep == Tier = "thorough"
 
-VARIABLES phase, bi, rule, cs, prog, cmd, brk, expected, conf
-vars == <<stage, outcome, filesWritten, li, mech, phase, bi, rule, cs, prog, cmd, brk, expected, conf>>
+VARIABLES phase, bi, rule, cs, prog, cmd, brk, broken, expected, conf
+vars == <<stage, outcome, filesWritten, li, mech, phase, bi, rule, cs, prog, cmd, brk, broken, expected, conf>>
 
 NoCase == [kind |-> "none"]
 Idle == /\ stage = "idle" /\ outcome = NoOutcome /\ filesWritten = {} /\ li = 0 /\ mech = ""
 IdleUnchanged == UNCHANGED <<stage, outcome, filesWritten, li, mech>>
 
 Init == /\ phase = "root" /\ bi = 0 /\ rule = "" /\ cs = NoCase /\ prog = <<>> /\ cmd = <<>>
-        /\ brk = {} /\ expected = {} /\ conf = TRUE /\ Idle
+        /\ brk = {} /\ broken = FALSE /\ expected = {} /\ conf = TRUE /\ Idle
 
 PickBase == /\ phase = "root"
             /\ \E b \in Idx(Bases) : bi' = b
             /\ phase' = "base"
-            /\ UNCHANGED <<rule, cs, prog, cmd, brk, expected, conf>> /\ IdleUnchanged
+            /\ UNCHANGED <<rule, cs, prog, cmd, brk, broken, expected, conf>> /\ IdleUnchanged
 
 Groups == IDLRules \cup {"cmd", "none"}
 PickRule == /\ phase = "base"
             /\ \E r \in Groups : rule' = r
             /\ phase' = "rule"
-            /\ UNCHANGED <<bi, cs, prog, cmd, brk, expected, conf>> /\ IdleUnchanged
+            /\ UNCHANGED <<bi, cs, prog, cmd, brk, broken, expected, conf>> /\ IdleUnchanged
 
 \* enter the pipeline with program p and command line c
 Start(p, c, case) ==
   /\ prog' = p /\ cmd' = c /\ cs' = case
-  /\ brk' = IDLBrokenRules(p) \cup {r \in CmdRules : CmdHolds(r, c)}
+  /\ LET declared == CASE case.kind = "idl" -> {case.edits[k].rule : k \in Idx(case.edits)}
+                        [] case.kind = "cmd" -> {case.rule}
+                        [] OTHER -> {}
+         holding == {r \in declared : Holds(r, p, c)}
+     IN /\ brk' = holding
+        \* the rules the case stands for are evaluated first; the whole catalogue only if none of them holds
+        /\ broken' = IF holding # {} THEN TRUE ELSE Broken(p, c)
   /\ expected' = ExpectedFiles(p, c)
   /\ conf' = TRUE
   /\ phase' = "run"
   /\ stage' = "args" /\ outcome' = NoOutcome /\ filesWritten' = {} /\ li' = 1 /\ mech' = ""
   /\ UNCHANGED <<bi, rule>>
+
+\* backend x -r. The quick tier runs the rules whose values only the backend types under all four
+\* configurations and the others under two (go without -r, fastgo with -r); thorough runs all four.
+AllConfigs == {<<b, r>> : b \in Backends, r \in BOOLEAN}
+ConfigRules == {"constKind", "undefinedConst", "ambiguousConst"}
+Configs(r) == IF Tier = "quick" /\ r \notin ConfigRules THEN {<<"go", FALSE>>, <<"fastgo", TRUE>>} ELSE AllConfigs
 
 IdlCase(es) == [kind |-> "idl", rule |-> es[Len(es)].rule, edits |-> es]
 
@@ -62,8 +74,8 @@ PickEdit ==
   /\ phase = "rule" /\ rule \in IDLRules /\ Tier # "pairs"
   /\ LET base == Bases[bi].prog
          es == EditsFor(base, rule, 1, Deep)
-     IN \E k \in Idx(es) : \E b \in Backends : \E r \in BOOLEAN :
-          Start(ApplyEdit(base, es[k]), GoodCmd(b, r), IdlCase(<<es[k]>>))
+     IN \E k \in Idx(es) : \E c \in Configs(rule) :
+          Start(ApplyEdit(base, es[k]), GoodCmd(c[1], c[2]), IdlCase(<<es[k]>>))
 
 PickCmdFault ==
   /\ phase = "rule" /\ rule = "cmd" /\ Tier # "pairs"
@@ -81,7 +93,7 @@ PickFirst ==
   /\ LET es == EditsFor(Bases[bi].prog, rule, 1, FALSE)
      IN \E k \in Idx(es) : cs' = IdlCase(<<es[k]>>)
   /\ phase' = "second"
-  /\ UNCHANGED <<bi, rule, prog, cmd, brk, expected, conf>> /\ IdleUnchanged
+  /\ UNCHANGED <<bi, rule, prog, cmd, brk, broken, expected, conf>> /\ IdleUnchanged
 PickSecond ==
   /\ phase = "second"
   /\ \E r2 \in IDLRules :
@@ -93,8 +105,8 @@ PickSecond ==
 
 Run == /\ phase = "run"
        /\ BNext(prog, cmd)
-       /\ conf' = (conf /\ ANext(brk # {}, expected))
-       /\ UNCHANGED <<phase, bi, rule, cs, prog, cmd, brk, expected>>
+       /\ conf' = (conf /\ ANext(broken, expected))
+       /\ UNCHANGED <<phase, bi, rule, cs, prog, cmd, brk, broken, expected>>
 
 Next == PickBase \/ PickRule \/ PickEdit \/ PickCmdFault \/ PickNone \/ PickFirst \/ PickSecond \/ Run
 Spec == Init /\ [][Next]_vars
@@ -104,20 +116,20 @@ Spec == Init /\ [][Next]_vars
 BaseValid == phase = "base" => ~IDLBroken(Bases[bi].prog)
 \* every edit breaks the rule it stands for; every command-line fault is one
 EditBreaks == (phase = "run" /\ cs.kind \in {"idl", "cmd"}) =>
-                 /\ brk # {}
+                 /\ broken
                  /\ IF cs.kind = "cmd" THEN cs.rule \in brk
                     ELSE \A k \in Idx(cs.edits) : cs.edits[k].rule \in brk
-BaseAccepted == (phase = "run" /\ cs.kind = "base" /\ stage = "done") => brk = {} /\ mech = "ok" /\ conf
+BaseAccepted == (phase = "run" /\ cs.kind = "base" /\ stage = "done") => ~broken /\ mech = "ok" /\ conf
 \* the abstract machine itself keeps the statement (checked on the transcribed runs that conform)
-AKeepsStatement == (phase = "run" /\ conf) => AInvariant(brk # {}, expected)
+AKeepsStatement == (phase = "run" /\ conf) => AInvariant(broken, expected)
 AllowedAgrees == (phase = "run" /\ stage = "done") =>
-                   (conf <=> Allowed(brk # {}, expected, [exit |-> outcome.exit, diag |-> outcome.diag,
+                   (conf <=> Allowed(broken, expected, [exit |-> outcome.exit, diag |-> outcome.diag,
                                                           crash |-> outcome.crash, files |-> filesWritten]))
 DesignInvariants == BaseValid /\ EditBreaks /\ BaseAccepted /\ AKeepsStatement /\ AllowedAgrees
 
 Emit == (phase = "run" /\ stage = "done") =>
           PrintT("CASE " \o ToJson([base |-> Bases[bi].name, case |-> cs, cmd |-> cmd,
-                                    brokenRules |-> brk, expected |-> expected,
+                                    brokenRules |-> brk, broken |-> broken, expected |-> expected,
                                     b |-> [mech |-> mech, exit |-> outcome.exit, crash |-> outcome.crash,
                                            files |-> filesWritten, conforms |-> conf]]))
 =============================================================================
